@@ -1,8 +1,1199 @@
 package main
 
-type runCase struct{}
+// Whole runs of the real drc / do-approve, in-process, against simulated devices of all five types.
+//
+//   - HTTP simulator (PAN-OS, NSX): httptest TLS server, scripted per request, fault injection at
+//     request k (dropped connection = transport error, status 500, unparsable body, not-active HA).
+//   - SSH simulator (ASA, IOS, Linux): this binary re-executed through SIMULATE_ROUTER
+//     (`vh-c17 -sshsim DEVICE SCENARIO`); a port of testdata/simulate-cisco.pl that does NOT echo
+//     what it reads at a password prompt (`<?>`), with fault injection at read k (close, silence,
+//     wrong password).
+//
+// After every run: (1) byte scan of every file below the base directory, stdout and stderr for the
+// run's unique secrets in five spellings (oracle); (2) the session logs and the marker lines of the
+// run log are compared with the Lean sink model fed with the requests / replies the simulator saw
+// (correspondence).
 
-func sshSimMain(args []string) int  { return 0 }
-func workerMain(args []string) int  { return 0 }
-func (e *c17Env) replayRun(r *runCase) {}
-func (e *c17Env) wholeRuns()         {}
+import (
+	"bufio"
+	"fmt"
+	"io"
+	"log"
+	"net/http"
+	"net/http/httptest"
+	"net/url"
+	"os"
+	"path/filepath"
+	"regexp"
+	"sort"
+	"strings"
+	"sync"
+	"syscall"
+	"time"
+	"unsafe"
+
+	. "verifharness/vhlib"
+
+	"github.com/hknutzen/Netspoc-Approve/go/pkg/doapprove"
+	"github.com/hknutzen/Netspoc-Approve/go/pkg/drc"
+)
+
+type runCase struct {
+	Dev     string `json:"dev"` // PAN-OS | NSX | ASA | IOS | Linux
+	Cmd     string `json:"cmd"` // do-approve approve | do-approve compare | drc | drc -C | drc -u (password typed at a terminal)
+	Pass    string `json:"pass"`
+	Key     string `json:"key"`    // PAN-OS API key / NSX x-xsrf-token
+	Cookie  string `json:"cookie"` // NSX session cookie
+	FaultAt int    `json:"fault_at"`
+	Fault   string `json:"fault"`   // HTTP: eof | timeout | status | invalid | inactive ; SSH: close | silence | wrongpass
+	User    string `json:"user"`    // "" = admin
+	Variant int    `json:"variant"` // layout of the keygen response / netspoc config with or without changes
+	Cred    string `json:"cred"`    // "" normal credentials file; "4fields" | "nomatch" | "badpattern": malformed
+}
+
+func (c runCase) user() string {
+	if c.User == "" {
+		return "admin"
+	}
+	return c.User
+}
+
+func (c runCase) canon() string {
+	return fmt.Sprintf("%s|%s|%s|%s|%s|%d|%s|%d|%s|%s", c.Dev, c.Cmd, c.Pass, c.Key, c.Cookie, c.FaultAt, c.Fault, c.Variant, c.Cred, c.User)
+}
+
+// ---------------------------------------------------------------- SSH simulator (child process)
+
+var sshDelim = regexp.MustCompile(`(?m)^#[ ]*(.*?)[ ]*\n`)
+
+type sshSim struct {
+	in      *bufio.Reader
+	out     io.Writer
+	trace   *os.File
+	ev      *os.File
+	reads   int
+	faultAt int
+	fault   string
+	pw      string
+	silent  bool
+}
+
+func (s *sshSim) write(text string) {
+	if s.silent {
+		return
+	}
+	text = strings.ReplaceAll(text, "\n", "\r\n")
+	io.WriteString(s.out, text)
+	s.trace.WriteString(text)
+}
+
+// readLine returns the next input line; ok=false at end of input.
+func (s *sshSim) readLine(isPassword bool) (string, bool) {
+	if s.reads == s.faultAt {
+		switch s.fault {
+		case "close":
+			fmt.Fprintf(s.ev, "fault close at read %d\n", s.reads)
+			os.Exit(0)
+		case "silence":
+			fmt.Fprintf(s.ev, "fault silence at read %d\n", s.reads)
+			s.silent = true
+		}
+	}
+	line, err := s.in.ReadString('\n')
+	if err != nil {
+		return "", false
+	}
+	line = strings.TrimSuffix(line, "\n")
+	if isPassword {
+		if line == s.pw {
+			fmt.Fprintf(s.ev, "read %d: <PASSWORD-OK>\n", s.reads)
+		} else {
+			fmt.Fprintf(s.ev, "read %d: <PASSWORD-WRONG>\n", s.reads)
+		}
+	} else if line == s.pw {
+		fmt.Fprintf(s.ev, "read %d: <PASSWORD-AS-COMMAND>\n", s.reads)
+	} else {
+		fmt.Fprintf(s.ev, "read %d: %s\n", s.reads, line)
+	}
+	s.reads++
+	return line, true
+}
+
+// sendLine: text with `<!>` (read a line, echo it) and `<?>` (read a line, do not echo it).
+func (s *sshSim) sendLine(text string) bool {
+	for {
+		i := strings.Index(text, "<!>")
+		j := strings.Index(text, "<?>")
+		if i < 0 && j < 0 {
+			s.write(text)
+			return true
+		}
+		pwd := false
+		k := i
+		if i < 0 || (j >= 0 && j < i) {
+			pwd, k = true, j
+		}
+		s.write(text[:k])
+		text = text[k+3:]
+		line, ok := s.readLine(pwd)
+		if !ok {
+			return false
+		}
+		if pwd {
+			if s.fault == "wrongpass" || line != s.pw {
+				// a device that rejects the password asks again and then gives up
+				s.write("\nPermission denied, please try again.\npassword: ")
+				if _, ok := s.readLine(true); !ok {
+					return false
+				}
+				s.write("\nPermission denied.\n")
+				return false
+			}
+			s.write("\n")
+		} else {
+			s.write(line + "\n")
+		}
+	}
+}
+
+func sshSimMain(args []string) int {
+	if len(args) < 2 {
+		return 2
+	}
+	device, file := args[0], args[1]
+	data, err := os.ReadFile(file)
+	if err != nil {
+		return 2
+	}
+	pw, _ := os.ReadFile(file + ".pw")
+	s := &sshSim{in: bufio.NewReader(os.Stdin), out: os.Stdout, faultAt: -1, pw: string(pw)}
+	if f, err := os.ReadFile(file + ".fault"); err == nil {
+		fmt.Sscanf(string(f), "%d %s", &s.faultAt, &s.fault)
+	}
+	s.trace, _ = os.OpenFile(file+".out", os.O_CREATE|os.O_WRONLY|os.O_APPEND, 0644)
+	s.ev, _ = os.OpenFile(file+".ev", os.O_CREATE|os.O_WRONLY|os.O_APPEND, 0644)
+	text := string(data)
+	locs := sshDelim.FindAllStringSubmatchIndex(text, -1)
+	preamble := text
+	cmd2out := map[string]string{}
+	if len(locs) > 0 {
+		preamble = text[:locs[0][0]]
+		for i, l := range locs {
+			end := len(text)
+			if i+1 < len(locs) {
+				end = locs[i+1][0]
+			}
+			cmd2out[text[l[2]:l[3]]] = text[l[1]:end]
+		}
+	}
+	preamble = strings.TrimSuffix(preamble, "\n")
+	if !s.sendLine(preamble) {
+		return 0
+	}
+	for {
+		cmd, ok := s.readLine(false)
+		if !ok {
+			return 0
+		}
+		lookup := strings.TrimPrefix(cmd, "do ")
+		s.write(cmd + "\n")
+		if lookup == "exit" {
+			return 0
+		}
+		if out := cmd2out[lookup]; out != "" {
+			if !s.sendLine(out) {
+				return 0
+			}
+		}
+		s.write(device + "#")
+	}
+}
+
+// ---------------------------------------------------------------- SSH scenarios (after testdata/*_simul.t)
+
+const scASA = `Are you sure you want to continue connecting (yes/no)?<!>
+***********************************************************
+**                 managed by NetSPoC                    **
+***********************************************************
+netspoc@10.1.2.3's password: <?>
+Type help or '?' for a list of available commands.
+router>
+# enable
+Password: <?>
+# sh pager
+pager lines 24
+
+# sh term
+
+Width = 80, no monitor
+terminal interactive
+# show hostname
+router
+# sh ver
+Cisco Adaptive Security Appliance Software Version 9.4(4)5
+Hardware:   ASA5550, 4096 MB RAM, CPU Pentium 4 3000 MHz
+# write term
+interface Ethernet0/0
+ nameif inside
+route inside 0.0.0.0 0.0.0.0 10.1.2.3
+# write memory
+Building configuration...
+Cryptochecksum: 0e1a09fa 0f7ed3c2 7e8e0d3c 2d8f4a0b
+
+[OK]
+`
+
+const nsASAsame = "route inside 0.0.0.0 0.0.0.0 10.1.2.3\n"
+const nsASAchg = "route inside 0.0.0.0 0.0.0.0 10.1.2.4\n"
+
+const scIOS = `Enter Password:<?>
+banner motd  managed by NetSPoC
+router>
+# enable
+Password:<?>
+# sh ver
+Cisco IOS Software, C2900 Software (C2900-UNIVERSALK9-M), Version 15.1(4)M4,
+# configure terminal
+Enter configuration commands, one per line.  End with CNTL/Z.
+# reload in 2
+
+System configuration has been modified. Save? [yes/no]: <!>
+Reload reason: Reload Command
+Proceed with reload? [confirm]<!>
+# reload cancel
+
+
+***
+*** --- SHUTDOWN ABORTED ---
+***
+# write memory
+Building configuration...
+  Compressed configuration from 106098 bytes to 30504 bytes[OK]
+# sh run
+ip route 10.20.0.0 255.255.0.0 10.1.2.3
+END
+`
+const nsIOSsame = "ip route 10.20.0.0 255.255.0.0 10.1.2.3\n"
+const nsIOSchg = "ip route 10.20.0.0 255.255.0.0 10.1.2.4\n"
+
+const scLinux = `The authenticity of host 'router (10.1.1.1)' can't be established.
+ECDSA key fingerprint is ee:6e:ee:00:33:aa:22:88:44:66:44:33:aa:77:42:f5.
+Are you sure you want to continue connecting (yes/no)? <!>
+root@router's password:<?>
+Last login: Mon Sep 30 2024
+root@linux-router:~#
+# echo $?
+0
+# uname -r
+3.2.89-2.custom
+# uname -m
+i686
+# hostname -s
+router
+# grep 'NetSPoC' /etc/issue
+--- managed by NetSPoC ---
+# which iptables-restore
+/sbin/iptables-restore
+# ip route show
+0.0.0.0/0 via 10.1.1.1
+# iptables-save
+*filter
+:INPUT DROP
+-A INPUT -j ACCEPT -s 10.1.11.111 -d 10.10.1.2 -p tcp --dport 23
+COMMIT
+`
+const nsLinuxChg = `ip route add 0.0.0.0/0 via 10.1.1.99
+
+*filter
+:INPUT DROP
+-A INPUT -j ACCEPT -s 10.1.11.111 -d 10.10.1.2 -p tcp --dport 22
+`
+const nsLinuxSame = `ip route add 0.0.0.0/0 via 10.1.1.1
+
+*filter
+:INPUT DROP
+-A INPUT -j ACCEPT -s 10.1.11.111 -d 10.10.1.2 -p tcp --dport 23
+`
+
+// ---------------------------------------------------------------- HTTP simulator
+
+type simReq struct {
+	Method string
+	URI    string // RequestURI as sent
+	Form   string // body of a POST
+	Token  string
+	Cookie string
+	Reply  c17Reply // what the simulator answered (kind eof = connection dropped)
+}
+
+type httpSim struct {
+	srv     *httptest.Server
+	mu      sync.Mutex
+	reqs    []simReq
+	retries int
+	reply   func(i int, r *http.Request) (c17Reply, map[string]string)
+}
+
+func newHTTPSim(reply func(i int, r *http.Request) (c17Reply, map[string]string)) *httpSim {
+	s := &httpSim{reply: reply}
+	s.srv = httptest.NewTLSServer(http.HandlerFunc(func(w http.ResponseWriter, r *http.Request) {
+		s.mu.Lock()
+		i := len(s.reqs)
+		body, _ := io.ReadAll(r.Body)
+		if i > 0 && s.reqs[i-1].Reply.Kind == "terr" && s.reqs[i-1].Method == r.Method && s.reqs[i-1].URI == r.RequestURI {
+			// http.Transport silently retries an idempotent request whose connection was closed
+			// before any byte of the response arrived: the fault persists, the retry is not a new step
+			s.retries++
+			s.mu.Unlock()
+			if hj, ok := w.(http.Hijacker); ok {
+				if conn, _, err := hj.Hijack(); err == nil {
+					conn.Close()
+				}
+			}
+			return
+		}
+		q := simReq{Method: r.Method, URI: r.RequestURI, Form: string(body), Token: r.Header.Get("x-xsrf-token")}
+		if c, err := r.Cookie("JSESSIONID"); err == nil {
+			q.Cookie = c.Value
+		}
+		rep, hdr := s.reply(i, r)
+		q.Reply = rep
+		s.reqs = append(s.reqs, q)
+		s.mu.Unlock()
+		switch rep.Kind {
+		case "terr":
+			if rep.B == "sleep" {
+				// longer than the client's timeout (1 s); the client gives up
+				time.Sleep(1300 * time.Millisecond)
+				return
+			}
+			if hj, ok := w.(http.Hijacker); ok {
+				if conn, _, err := hj.Hijack(); err == nil {
+					conn.Close()
+					return
+				}
+			}
+			s.srv.CloseClientConnections()
+			return
+		case "status":
+			for k, v := range hdr {
+				w.Header().Set(k, v)
+			}
+			code := 500
+			fmt.Sscanf(rep.A, "%d", &code)
+			w.WriteHeader(code)
+			io.WriteString(w, rep.B)
+		default:
+			for k, v := range hdr {
+				w.Header().Set(k, v)
+			}
+			w.WriteHeader(200)
+			io.WriteString(w, rep.A)
+		}
+	}))
+	return s
+}
+
+const panHA = `<response status = 'success'>
+ <result>
+  <enabled>yes</enabled>
+  <group>
+   <mode>Active-Passive</mode>
+   <local-info>
+    <ha2-port>hsci</ha2-port>
+    <state>active</state>
+   </local-info>
+  </group>
+ </result>
+</response>
+`
+const panHAPassive = `<response status = 'success'>
+ <result>
+  <enabled>yes</enabled>
+  <group>
+   <mode>Active-Passive</mode>
+   <local-info>
+    <state>passive</state>
+   </local-info>
+  </group>
+ </result>
+</response>
+`
+const panConfig = `<response status = 'success'>
+ <result>
+  <devices>
+   <entry name="localhost.localdomain">
+    <deviceconfig>
+     <system>
+      <hostname>router</hostname>
+     </system>
+    </deviceconfig>
+    <vsys>
+     <entry name="vsys1">
+     <display-name>FW7-managed-by-Netspoc</display-name>
+     </entry>
+    </vsys>
+   </entry>
+  </devices>
+ </result>
+</response>
+`
+const panNetspoc = `<config><devices><entry name="localhost.localdomain"><vsys><entry name="vsys1">
+<rulebase><security><rules>
+<entry name="r1">
+<action>allow</action>
+<from><member>z1</member></from>
+<to><member>z2</member></to>
+<source><member>any</member></source>
+<destination><member>any</member></destination>
+<service><member>tcp 80</member></service>
+<application><member>any</member></application>
+<rule-type>interzone</rule-type>
+</entry>
+</rules></security></rulebase>
+<service>
+<entry name="tcp 80">
+ <protocol>
+ <tcp><port>80</port></tcp>
+ </protocol>
+</entry>
+</service>
+</entry></vsys></entry></devices></config>
+`
+const panInvalid = "<invalid/>"
+const panInvalidMsg = "Parsing response: expected element type <response> but have <invalid>"
+
+func panKeygenBody(variant int, key string) (pre, post string) {
+	switch variant % 4 {
+	case 0:
+		return "<response status = 'success'>\n <result>", "</result>\n</response>\n"
+	case 1:
+		return "<response status='success'><result>", "</result></response>"
+	case 2:
+		return "<!-- <key>decoy --><response status = 'success'><result>", "<!-- </key> --></result></response>\n"
+	default:
+		return "<response status = 'success'>\n<result>\n", "\n</result></response>"
+	}
+}
+
+const nsxInvalidMsg = "invalid character 'i' looking for beginning of value"
+
+const nsxNetspoc = `{
+ "services": [
+  {
+   "id": "Netspoc-icmp",
+   "service_entries": [
+    {
+     "id": "id",
+     "protocol": "ICMPv4",
+     "resource_type": "ICMPTypeServiceEntry"
+    }
+   ]
+  }
+  ]
+}
+`
+
+// ---------------------------------------------------------------- one run
+
+type runOutcome struct {
+	stdout, stderr string
+	status         int
+	panicMsg       string
+	files          map[string]string
+	reqs           []simReq
+	addr           string
+	simOut         string // SSH: bytes the simulated device wrote
+	simEv          string
+	logDir         string
+}
+
+var devSSH = map[string]bool{"ASA": true, "IOS": true, "Linux": true}
+
+func (e *c17Env) execRun(c *runCase, no int) *runOutcome {
+	work := filepath.Join(e.tmp, fmt.Sprintf("run%d", no))
+	side := filepath.Join(e.tmp, fmt.Sprintf("side%d", no)) // scenario, traces: not scanned
+	os.MkdirAll(side, 0755)
+	p1 := filepath.Join(work, "policies", "p1")
+	codeDir := filepath.Join(p1, "code")
+	os.MkdirAll(codeDir, 0755)
+	os.Symlink("p1", filepath.Join(work, "policies", "current"))
+	for _, d := range []string{"lock", "status", "history"} {
+		os.MkdirAll(filepath.Join(work, d), 0755)
+	}
+	user := c.user()
+	cred := "* " + user + " " + c.Pass + "\n"
+	switch c.Cred {
+	case "4fields":
+		cred = "* admin " + c.Pass + " extra\n"
+	case "nomatch":
+		cred = "other admin " + c.Pass + "\n"
+	case "badpattern":
+		cred = "[ admin " + c.Pass + "\n"
+	}
+	WriteFiles(work, map[string]string{
+		"credentials":      cred,
+		".netspoc-approve": "basedir = " + work + "\ncheckbanner = NetSPoC\nsystemuser = " + user + "\ntimeout = 1\nlogin_timeout = 1\n",
+	})
+	info := fmt.Sprintf("{\n \"model\": %q,\n \"name_list\": [ \"router\" ],\n \"ip_list\": [ \"10.1.13.33\" ]\n}\n", c.Dev)
+	netspoc := ""
+	out := &runOutcome{files: map[string]string{}}
+	var sim *httpSim
+	os.Unsetenv("TEST_TIME")
+	switch c.Dev {
+	case "PAN-OS":
+		netspoc = panNetspoc
+		pre, post := panKeygenBody(c.Variant, c.Key)
+		sim = newHTTPSim(func(i int, r *http.Request) (c17Reply, map[string]string) {
+			rep := c17Reply{Kind: "ok"}
+			q := r.URL.Query()
+			switch {
+			case q.Get("type") == "keygen":
+				rep.A = pre + "<key>" + c.Key + "</key>" + post
+			case strings.Contains(q.Get("cmd"), "high-availability"):
+				rep.A = panHA
+			case q.Get("type") == "config" && q.Get("action") == "get":
+				rep.A = panConfig
+			case q.Get("type") == "config":
+				rep.A = `<response status="success" code="20"></response>`
+			case q.Get("type") == "commit":
+				rep.A = `<response status="success" code="19"><result><job>6</job></result></response>`
+			case strings.Contains(q.Get("cmd"), "<jobs>"):
+				rep.A = "<response status=\"success\"><result><job>\n<result>OK</result>\n</job></result></response>\n"
+			default:
+				rep = c17Reply{Kind: "status", A: "404", B: "404 page not found\n"}
+			}
+			if i == c.FaultAt {
+				switch c.Fault {
+				case "eof":
+					rep = c17Reply{Kind: "terr", A: "EOF"}
+				case "timeout":
+					rep = c17Reply{Kind: "terr", A: "context deadline exceeded (Client.Timeout exceeded while awaiting headers)", B: "sleep"}
+				case "status":
+					rep = c17Reply{Kind: "status", A: "500", B: "device not ready\n"}
+				case "invalid":
+					rep = c17Reply{Kind: "fail", A: panInvalid, B: panInvalidMsg}
+				case "inactive":
+					rep = c17Reply{Kind: "fail", A: panHAPassive, B: ""}
+				}
+			}
+			return rep, nil
+		})
+	case "NSX":
+		netspoc = nsxNetspoc
+		sim = newHTTPSim(func(i int, r *http.Request) (c17Reply, map[string]string) {
+			rep := c17Reply{Kind: "ok", A: "{}"}
+			var hdr map[string]string
+			if r.URL.Path == "/api/session/create" {
+				rep.A = ""
+				hdr = map[string]string{"x-xsrf-token": c.Key, "Set-Cookie": "JSESSIONID=" + c.Cookie + "; Path=/; Secure; HttpOnly"}
+			}
+			if i == c.FaultAt {
+				switch c.Fault {
+				case "eof":
+					rep = c17Reply{Kind: "terr", A: "EOF"}
+				case "timeout":
+					rep = c17Reply{Kind: "terr", A: "context deadline exceeded (Client.Timeout exceeded while awaiting headers)", B: "sleep"}
+				case "status":
+					rep = c17Reply{Kind: "status", A: "500", B: "device not ready\n"}
+				case "invalid":
+					rep = c17Reply{Kind: "fail", A: "invalid", B: nsxInvalidMsg}
+				}
+			}
+			return rep, hdr
+		})
+	case "ASA", "IOS", "Linux":
+		sc := map[string]string{"ASA": scASA, "IOS": scIOS, "Linux": scLinux}[c.Dev]
+		same := map[string]string{"ASA": nsASAsame, "IOS": nsIOSsame, "Linux": nsLinuxSame}[c.Dev]
+		chg := map[string]string{"ASA": nsASAchg, "IOS": nsIOSchg, "Linux": nsLinuxChg}[c.Dev]
+		netspoc = same
+		if c.Variant%2 == 1 {
+			netspoc = chg
+		}
+		scFile := filepath.Join(side, "scenario")
+		files := map[string]string{"scenario": sc, "scenario.pw": c.Pass}
+		if c.FaultAt >= 0 {
+			files["scenario.fault"] = fmt.Sprintf("%d %s", c.FaultAt, c.Fault)
+		} else if c.Fault == "wrongpass" {
+			files["scenario.fault"] = "-1 wrongpass"
+		}
+		WriteFiles(side, files)
+		exe, _ := os.Executable()
+		os.Setenv("SIMULATE_ROUTER", exe+" -sshsim router "+scFile)
+	}
+	if sim != nil {
+		defer sim.srv.Close()
+		os.Setenv("SIMULATE_ROUTER", sim.srv.URL)
+		out.addr = sim.srv.URL
+	}
+	WriteFiles(codeDir, map[string]string{"router": netspoc, "router.info": info})
+	os.Setenv("HOME", work)
+	prevDir, _ := os.Getwd()
+	os.Chdir(work)
+	defer os.Chdir(prevDir)
+	out.logDir = filepath.Join(p1, "log")
+	var mainFn func() int
+	switch c.Cmd {
+	case "do-approve approve":
+		os.Args = []string{"do-approve", "approve", "router"}
+		mainFn = doapprove.Main
+	case "do-approve compare":
+		os.Args = []string{"do-approve", "compare", "router"}
+		mainFn = doapprove.Main
+	case "drc":
+		os.Args = []string{"drc", "-L", out.logDir, filepath.Join(codeDir, "router")}
+		mainFn = drc.Main
+	case "drc -u":
+		os.Args = []string{"drc", "-u", user, "-L", out.logDir, filepath.Join(codeDir, "router")}
+		mainFn = drc.Main
+		master, slave, err := openPTY()
+		if err != nil {
+			out.panicMsg = "openpty: " + err.Error()
+			return out
+		}
+		oldStdin := os.Stdin
+		os.Stdin = slave
+		var termBuf strings.Builder
+		var tmu sync.Mutex
+		go func() {
+			// what the terminal displays: tty echo of typed input (stdout/stderr are captured separately)
+			buf := make([]byte, 4096)
+			for {
+				n, err := master.Read(buf)
+				tmu.Lock()
+				termBuf.Write(buf[:n])
+				tmu.Unlock()
+				if err != nil {
+					return
+				}
+			}
+		}()
+		go func() {
+			// type the password once the program has switched off echo (term.ReadPassword)
+			for i := 0; i < 400; i++ {
+				if echoOff(slave) {
+					break
+				}
+				time.Sleep(5 * time.Millisecond)
+			}
+			io.WriteString(master, c.Pass+"\n")
+		}()
+		defer func() {
+			os.Stdin = oldStdin
+			time.Sleep(20 * time.Millisecond)
+			slave.Close()
+			master.Close()
+			tmu.Lock()
+			out.files["<terminal>"] = termBuf.String()
+			tmu.Unlock()
+		}()
+	default:
+		os.Args = []string{"drc", "-C", "-L", out.logDir, filepath.Join(codeDir, "router")}
+		mainFn = drc.Main
+	}
+	done := make(chan struct{})
+	go func() {
+		out.stdout, out.stderr, out.status, out.panicMsg = Captured(func() int {
+			// goexpect reports through the standard logger, which in a real process writes to stderr
+			log.SetOutput(os.Stderr)
+			defer log.SetOutput(io.Discard)
+			return mainFn()
+		})
+		close(done)
+	}()
+	select {
+	case <-done:
+	case <-time.After(60 * time.Second):
+		out.panicMsg = "TIMEOUT of the run (60s)"
+		return out
+	}
+	os.Unsetenv("SIMULATE_ROUTER")
+	if sim != nil {
+		sim.mu.Lock()
+		out.reqs = append(out.reqs, sim.reqs...)
+		if sim.retries > 0 {
+			e.res.CountN("http:transparent-retries-of-dropped-requests", sim.retries)
+		}
+		sim.mu.Unlock()
+	}
+	if devSSH[c.Dev] {
+		b, _ := os.ReadFile(filepath.Join(side, "scenario.out"))
+		out.simOut = string(b)
+		b, _ = os.ReadFile(filepath.Join(side, "scenario.ev"))
+		out.simEv = string(b)
+	}
+	filepath.Walk(work, func(p string, info os.FileInfo, err error) error {
+		if err == nil && info.Mode().IsRegular() {
+			rel, _ := filepath.Rel(work, p)
+			b, _ := os.ReadFile(p)
+			out.files[rel] = string(b)
+		}
+		return nil
+	})
+	os.RemoveAll(work)
+	os.RemoveAll(side)
+	return out
+}
+
+func ioctl(fd uintptr, req uintptr, arg unsafe.Pointer) error {
+	if _, _, e := syscall.Syscall(syscall.SYS_IOCTL, fd, req, uintptr(arg)); e != 0 {
+		return e
+	}
+	return nil
+}
+
+func openPTY() (master, slave *os.File, err error) {
+	master, err = os.OpenFile("/dev/ptmx", os.O_RDWR, 0)
+	if err != nil {
+		return nil, nil, err
+	}
+	var unlock int32
+	if err = ioctl(master.Fd(), syscall.TIOCSPTLCK, unsafe.Pointer(&unlock)); err != nil {
+		master.Close()
+		return nil, nil, err
+	}
+	var n uint32
+	if err = ioctl(master.Fd(), syscall.TIOCGPTN, unsafe.Pointer(&n)); err != nil {
+		master.Close()
+		return nil, nil, err
+	}
+	slave, err = os.OpenFile(fmt.Sprintf("/dev/pts/%d", n), os.O_RDWR|syscall.O_NOCTTY, 0)
+	if err != nil {
+		master.Close()
+		return nil, nil, err
+	}
+	return master, slave, nil
+}
+
+func echoOff(f *os.File) bool {
+	var t syscall.Termios
+	if err := ioctl(f.Fd(), syscall.TCGETS, unsafe.Pointer(&t)); err != nil {
+		return false
+	}
+	return t.Lflag&syscall.ECHO == 0
+}
+
+// ---------------------------------------------------------------- oracle: byte scan
+
+func sinkOf(rel string) string {
+	switch {
+	case rel == "<stdout>":
+		return "stdout"
+	case rel == "<stderr>":
+		return "stderr"
+	case rel == "<terminal>":
+		return "terminal"
+	case strings.HasPrefix(rel, "history/"):
+		return "history"
+	case strings.HasPrefix(rel, "status/"):
+		return "status"
+	case strings.HasSuffix(rel, ".drc") || strings.HasSuffix(rel, ".compare"):
+		return "runlog"
+	case strings.HasSuffix(rel, ".login") || strings.HasSuffix(rel, ".config") || strings.HasSuffix(rel, ".change") || strings.HasSuffix(rel, ".cmp"):
+		return "session" + filepath.Ext(rel)
+	}
+	return "other:" + rel
+}
+
+func (e *c17Env) scanRun(c *runCase, o *runOutcome) {
+	secrets := map[string]string{"password": c.Pass}
+	switch c.Dev {
+	case "PAN-OS":
+		secrets["apikey"] = c.Key
+	case "NSX":
+		secrets["token"] = c.Key
+		secrets["cookie"] = c.Cookie
+	}
+	hay := map[string]string{"<stdout>": o.stdout, "<stderr>": o.stderr}
+	for rel, content := range o.files {
+		if rel == "credentials" || rel == ".netspoc-approve" {
+			continue // the configuration holds the password by design
+		}
+		hay[rel] = content
+	}
+	names := make([]string, 0, len(hay))
+	for n := range hay {
+		names = append(names, n)
+	}
+	sort.Strings(names)
+	kinds := []string{"password", "apikey", "token", "cookie"}
+	for _, kind := range kinds {
+		secret, ok := secrets[kind]
+		if !ok {
+			continue
+		}
+		for _, rel := range names {
+			form, found := findSecret(hay[rel], secret)
+			if !found {
+				continue
+			}
+			sink := sinkOf(rel)
+			pred := "secret_in_sink"
+			if kind == "apikey" && c.Dev == "PAN-OS" {
+				if strings.ContainsAny(c.Key, "&\n") {
+					e.res.Count("scan:key-outside-alphabet(&,newline)-visible")
+					continue
+				}
+				// F-C17: every line that shows the key is an error line embedding the request URL
+				all := true
+				needle := secretForms(secret)[form]
+				for _, line := range strings.Split(hay[rel], "\n") {
+					if strings.Contains(line, needle) && !strings.Contains(line, `Get "`+o.addr+`/api/?key=`) &&
+						!strings.Contains(line, `parse "`+o.addr+`/api/?key=`) {
+						all = false
+					}
+				}
+				if all {
+					pred = "panos_transport_error_url"
+				}
+			}
+			e.res.Fail(map[string]any{"pred": pred, "sink": sink, "dev": c.Dev, "secret": kind, "form": form},
+				fmt.Sprintf("%s %s: %s found (%s) in %s [fault %s at %d]", c.Dev, c.Cmd, kind, form, rel, c.Fault, c.FaultAt),
+				map[string]any{"run": c})
+			e.res.Count("leak:" + pred + ":" + sink)
+		}
+	}
+}
+
+// ---------------------------------------------------------------- correspondence with the sink model
+
+func markerLines(runlog string) []string {
+	var l []string
+	for _, line := range strings.Split(runlog, "\n") {
+		if strings.HasPrefix(line, "ERROR>>> ") || strings.HasPrefix(line, "WARNING>>> ") {
+			l = append(l, line)
+		}
+	}
+	return l
+}
+
+func (o *runOutcome) runlog(c *runCase) string {
+	switch c.Cmd {
+	case "do-approve approve":
+		return o.files["policies/p1/log/router.drc"]
+	case "do-approve compare":
+		return o.files["policies/p1/log/router.compare"]
+	}
+	return o.stderr
+}
+
+func parseSinks(ans string) (map[string][]string, bool) {
+	m := map[string][]string{}
+	for _, f := range strings.Split(ans, "\t") {
+		k, v, ok := strings.Cut(f, "=")
+		if !ok {
+			return nil, false
+		}
+		m[k] = unhxList(v)
+	}
+	_, ok := m["runlog"]
+	return m, ok
+}
+
+func (e *c17Env) comparePanos(c *runCase, o *runOutcome) {
+	if len(o.reqs) == 0 {
+		return
+	}
+	enc := func(r c17Reply) string {
+		if r.Kind == "fail" && r.B == "" {
+			r.B = "x" // HA check: the text is not used
+		}
+		return r.enc()
+	}
+	kg := o.reqs[0].Reply
+	var reqs, reps []string
+	for i, q := range o.reqs[1:] {
+		reps = append(reps, enc(q.Reply))
+		if i == 0 {
+			continue // the HA check is built into the model
+		}
+		uri := strings.TrimPrefix(q.URI, "/api/?key="+c.Key+"&")
+		u, _ := url.Parse(q.URI)
+		qq := u.Query()
+		log, wrap := "change", "Command failed with "
+		switch {
+		case qq.Get("type") == "config" && qq.Get("action") == "get":
+			log, wrap = "config", ""
+		case qq.Get("type") == "commit" || strings.Contains(qq.Get("cmd"), "<jobs>"):
+			wrap = "Commit failed: "
+		}
+		if log == "config" && q.Reply.Kind == "fail" {
+			wrap = "While reading device: "
+		}
+		reqs = append(reqs, log+":"+hx(uri)+":"+hx(wrap))
+	}
+	j := func(l []string) string {
+		if len(l) == 0 {
+			return "-"
+		}
+		return strings.Join(l, ";")
+	}
+	line := strings.Join([]string{"panos", hx(o.addr), hx(c.user()), hx(c.Pass), hx("router"), hx("10.1.13.33"),
+		enc(kg), hx(c.Key), j(reqs), j(reps)}, "\t")
+	ans := e.drv.Ask(line)
+	m, ok := parseSinks(ans)
+	if !ok {
+		e.res.Disagree("c17 run PAN-OS (driver)", c, "", ans)
+		return
+	}
+	impl := "login:\n" + o.files["policies/p1/log/router.login"] + "config:\n" + o.files["policies/p1/log/router.config"] +
+		"change:\n" + o.files["policies/p1/log/router.change"] + "runlog:\n" + strings.Join(markerLines(o.runlog(c)), "\n")
+	change := entriesToFile(m["change"])
+	model := "login:\n" + entriesToFile(m["login"]) + "config:\n" + entriesToFile(m["config"]) +
+		"change:\n" + change + "runlog:\n" + strings.Join(m["runlog"], "\n")
+	e.res.TracesVsImpl++
+	if impl != model {
+		e.res.Disagree("c17 run PAN-OS sinks", c, impl, model)
+	}
+}
+
+func titleCase(m string) string {
+	if m == "" {
+		return m
+	}
+	return m[:1] + strings.ToLower(m[1:])
+}
+
+func (e *c17Env) compareNSX(c *runCase, o *runOutcome) {
+	if len(o.reqs) == 0 {
+		return
+	}
+	lg := o.reqs[0].Reply
+	login := ""
+	switch lg.Kind {
+	case "terr":
+		login = "terr:" + hx(lg.A) + ":-"
+	case "status":
+		login = "resp:" + hx("500 Internal Server Error") + ":" + hx("500")
+	default:
+		login = "resp:" + hx("200 OK") + ":" + hx("200")
+	}
+	var reqs, reps []string
+	rest := o.reqs[1:]
+	for i, q := range rest {
+		path := q.URI
+		rep := q.Reply
+		log, before, after := "config", "-", "-"
+		if q.Method != "GET" {
+			log = "change"
+			before = hx("URI: "+q.Method+" "+path) + "," + hx("DATA: "+q.Form)
+			if rep.Kind == "fail" {
+				rep = c17Reply{Kind: "ok", A: rep.A} // the answer to a change is logged, not parsed
+			}
+			after = hx("RESP: " + rep.A)
+		} else {
+			if rep.Kind == "fail" {
+				p, _, _ := strings.Cut(path, "?")
+				rep.B = "while parsing " + p + ": " + rep.B
+			}
+			// the last GET is followed by the dump of the collected configuration
+			last := i == len(rest)-1 || rest[i+1].Method != "GET"
+			if last && rep.Kind == "ok" && strings.Contains(path, "/groups") {
+				after = hx(strings.TrimSuffix(o.files["policies/p1/log/router.config"], "\n"))
+			}
+		}
+		reqs = append(reqs, strings.Join([]string{hx(titleCase(q.Method)), hx(q.Method), hx(path), log, before, after}, ":"))
+		reps = append(reps, rep.enc())
+	}
+	j := func(l []string) string {
+		if len(l) == 0 {
+			return "-"
+		}
+		return strings.Join(l, ";")
+	}
+	line := strings.Join([]string{"nsx", hx(o.addr), hx(c.user()), hx(c.Pass), hx(c.Key), hx(c.Cookie), hx("router"),
+		login, j(reqs), j(reps)}, "\t")
+	ans := e.drv.Ask(line)
+	m, ok := parseSinks(ans)
+	if !ok {
+		e.res.Disagree("c17 run NSX (driver)", c, "", ans)
+		return
+	}
+	impl := "login:\n" + o.files["policies/p1/log/router.login"] + "config:\n" + o.files["policies/p1/log/router.config"] +
+		"change:\n" + o.files["policies/p1/log/router.change"] + "runlog:\n" + strings.Join(markerLines(o.runlog(c)), "\n")
+	model := "login:\n" + entriesToFile(m["login"]) + "config:\n" + entriesToFile(m["config"]) +
+		"change:\n" + entriesToFile(m["change"]) + "runlog:\n" + strings.Join(m["runlog"], "\n")
+	e.res.TracesVsImpl++
+	if impl != model {
+		e.res.Disagree("c17 run NSX sinks", c, impl, model)
+	}
+}
+
+func (e *c17Env) compareSSH(c *runCase, o *runOutcome) {
+	// every session log is device output, in order: login ++ config ++ change is a prefix of the
+	// normalised device output (the .change log of an unchanged device is one DoLog line)
+	norm := unhx(e.drv.Ask("sshlog\t" + hx(o.simOut)))
+	logs := o.files["policies/p1/log/router.login"] + o.files["policies/p1/log/router.config"]
+	chg := o.files["policies/p1/log/router.change"]
+	if chg != "No changes applied\n" {
+		logs += chg
+	}
+	e.res.TracesVsImpl++
+	if !strings.HasPrefix(norm, logs) {
+		e.res.Disagree("c17 run SSH session logs are a prefix of the device output", c, logs, norm)
+	}
+}
+
+func (e *c17Env) oneRun(c *runCase) {
+	e.runNo++
+	t0 := time.Now()
+	o := e.execRun(c, e.runNo)
+	res := e.res
+	res.CountN("ms:"+c.Dev+":"+c.Fault, int(time.Since(t0).Milliseconds()))
+	if os.Getenv("C17_DEBUG") != "" {
+		fmt.Fprintf(os.Stderr, "---- run %s\nstatus %d panic %q\nstdout: %q\nstderr: %q\nsimEv: %q\n", JSONStr(c), o.status, o.panicMsg, o.stdout, o.stderr, o.simEv)
+		for _, q := range o.reqs {
+			fmt.Fprintf(os.Stderr, "req %s %s form=%q -> %s\n", q.Method, q.URI, q.Form, q.Reply.Kind)
+		}
+		names := []string{}
+		for n := range o.files {
+			names = append(names, n)
+		}
+		sort.Strings(names)
+		for _, n := range names {
+			fmt.Fprintf(os.Stderr, "file %s: %q\n", n, o.files[n])
+		}
+	}
+	if o.panicMsg != "" {
+		res.Fail(map[string]any{"pred": "run_panic_or_timeout", "dev": c.Dev}, o.panicMsg, map[string]any{"run": c})
+		return
+	}
+	reached := len(o.reqs) > 0 || strings.Contains(o.simEv, "<PASSWORD-OK>") || strings.Contains(o.simEv, "<PASSWORD-WRONG>")
+	if c.Dev == "NSX" && len(o.reqs) > 1 {
+		// the run is meaningful only if the session secrets were really in use
+		if o.reqs[1].Token != c.Key || o.reqs[1].Cookie != c.Cookie {
+			res.Disagree("c17 run NSX: token/cookie not presented by the client", c, fmt.Sprint(o.reqs[1]), "token and cookie of the login response")
+		}
+	}
+	if strings.Contains(o.simEv, "<PASSWORD-AS-COMMAND>") {
+		res.Count("ssh:password-sent-as-enable-password")
+	}
+	res.Eval(c.canon(), reached)
+	res.Count("run:" + c.Dev + ":" + c.Cmd)
+	res.Count(fmt.Sprintf("run-status:%s:%d", c.Dev, o.status))
+	if c.FaultAt >= 0 || c.Fault != "" {
+		res.Count("run-fault:" + c.Dev + ":" + c.Fault)
+	}
+	e.scanRun(c, o)
+	switch {
+	case c.Dev == "PAN-OS" && c.Cred == "" && c.User == "":
+		e.comparePanos(c, o)
+	case c.Dev == "NSX" && c.Cred == "":
+		e.compareNSX(c, o)
+	case devSSH[c.Dev] && c.Cred == "":
+		e.compareSSH(c, o)
+	}
+	if len(res.Samples) < 4 && reached && c.FaultAt >= 0 {
+		res.Sample(map[string]any{"run": c, "status": o.status, "markers": markerLines(o.runlog(c))})
+	}
+}
+
+func (e *c17Env) replayRun(c *runCase) { e.oneRun(c) }
+
+var runCmds = []string{"do-approve approve", "do-approve compare", "drc", "drc -C"}
+
+func (e *c17Env) genRunSecrets(rng *RNG, c *runCase) {
+	if c.Pass != "" {
+		return // replay
+	}
+	// credentials file: no whitespace in the password
+	c.Pass = strings.Map(func(r rune) rune {
+		if r == ' ' || r == '\t' || r == '\n' || r == '\r' || r == '\f' || r == '\v' || r == 0x85 || r == 0xA0 {
+			return '_'
+		}
+		return r
+	}, genSecret(rng, 1))
+	switch c.Dev {
+	case "PAN-OS":
+		c.Key = genCore(rng, 24) + Pick(rng, []string{"", "=", "==", "+/x=", "/+9", "%2B", "~."})
+	case "NSX":
+		c.Key = genCore(rng, 16) + Pick(rng, []string{"", "-", "=", "+/", "%26"})
+		c.Cookie = genCore(rng, 20)
+	}
+}
+
+func (e *c17Env) wholeRuns() {
+	rng := e.ctx.Rng.Fork()
+	thorough := e.ctx.Thorough()
+	run := func(c *runCase) {
+		e.genRunSecrets(rng, c)
+		e.oneRun(c)
+	}
+	// corpus: the finding, minimal
+	run(&runCase{Dev: "PAN-OS", Cmd: "do-approve approve", FaultAt: 2, Fault: "eof"})
+	// HTTP devices: success and a fault of every kind at every request position
+	for _, dev := range []string{"PAN-OS", "NSX"} {
+		nreq := map[string]int{"PAN-OS": 8, "NSX": 5}[dev]
+		faults := []string{"eof", "status", "invalid"}
+		for ci, cmd := range runCmds {
+			run(&runCase{Dev: dev, Cmd: cmd, FaultAt: -1, Variant: ci})
+			for pos := 0; pos < nreq; pos++ {
+				for fi, f := range faults {
+					if !thorough && (pos+fi+ci)%2 == 1 && pos > 2 {
+						continue
+					}
+					run(&runCase{Dev: dev, Cmd: cmd, FaultAt: pos, Fault: f, Variant: pos + fi})
+				}
+				if thorough && (pos+ci)%2 == 0 {
+					run(&runCase{Dev: dev, Cmd: cmd, FaultAt: pos, Fault: "timeout", Variant: pos})
+				}
+			}
+			if dev == "PAN-OS" {
+				run(&runCase{Dev: dev, Cmd: cmd, FaultAt: 1, Fault: "inactive", Variant: ci})
+			}
+		}
+	}
+	run(&runCase{Dev: "PAN-OS", Cmd: "drc", FaultAt: 3, Fault: "timeout"})
+	// a user name with a control character: the commit URL is rejected by net/url ("parse" error)
+	run(&runCase{Dev: "PAN-OS", Cmd: "do-approve approve", FaultAt: -1, User: "ad\x01min"})
+	// password typed at a terminal (may contain blanks)
+	for _, dev := range []string{"PAN-OS", "NSX", "ASA"} {
+		c := &runCase{Dev: dev, Cmd: "drc -u", FaultAt: -1, Variant: 1}
+		e.genRunSecrets(rng, c)
+		c.Pass = genSecret(rng, 1) + " " + genCore(rng, 5)
+		e.oneRun(c)
+	}
+	// malformed credentials files
+	for _, cred := range []string{"4fields", "nomatch", "badpattern"} {
+		for _, dev := range []string{"PAN-OS", "ASA"} {
+			run(&runCase{Dev: dev, Cmd: "do-approve approve", FaultAt: -1, Cred: cred})
+		}
+	}
+	// SSH devices
+	for di, dev := range []string{"ASA", "IOS", "Linux"} {
+		nread := map[string]int{"ASA": 14, "IOS": 12, "Linux": 16}[dev]
+		for ci, cmd := range runCmds {
+			if !thorough && ci != di && ci != 3-di {
+				continue
+			}
+			for v := 0; v < 2; v++ {
+				run(&runCase{Dev: dev, Cmd: cmd, FaultAt: -1, Variant: v})
+			}
+			run(&runCase{Dev: dev, Cmd: cmd, FaultAt: -1, Fault: "wrongpass"})
+			for pos := 0; pos < nread; pos++ {
+				if thorough || (pos+ci)%4 == 0 {
+					run(&runCase{Dev: dev, Cmd: cmd, FaultAt: pos, Fault: "close", Variant: 1})
+				}
+				if thorough && (pos < 6 || pos%3 == 0) || !thorough && pos == 1+di && ci == di {
+					run(&runCase{Dev: dev, Cmd: cmd, FaultAt: pos, Fault: "silence", Variant: 1})
+				}
+			}
+		}
+	}
+	if thorough {
+		// random cases on top of the systematic ones
+		devs := []string{"PAN-OS", "NSX", "ASA", "IOS", "Linux"}
+		for i := 0; i < 150; i++ {
+			dev := Pick(rng, devs)
+			c := &runCase{Dev: dev, Cmd: Pick(rng, runCmds), FaultAt: rng.Intn(12) - 2, Variant: rng.Intn(4)}
+			if c.FaultAt < 0 {
+				c.FaultAt = -1
+			} else if devSSH[dev] {
+				c.Fault = "close"
+			} else {
+				c.Fault = Pick(rng, []string{"eof", "status", "invalid"})
+			}
+			run(c)
+		}
+	}
+}
